@@ -22,7 +22,6 @@ import (
 	sql "github.com/rqlite/rqlite/v10/db"
 	"github.com/rqlite/rqlite/v10/internal/fsutil"
 	"github.com/rqlite/rqlite/v10/internal/rsum"
-	"github.com/rqlite/rqlite/v10/snapshot"
 )
 
 func vcFileSum(path string) string {
@@ -226,29 +225,7 @@ func (e *vcEnv) nativeCheckpoint(w io.Writer, timeout time.Duration) (*sql.Check
 	return meta, n, err
 }
 
-func (e *vcEnv) nativeRestore(id string) (vcState, bool) {
-	_, rc, err := e.s.snapshotStore.Open(id)
-	if err != nil {
-		return vcState{}, false
-	}
-	e.nrestored++
-	tmp := filepath.Join(e.root, fmt.Sprintf("restored-%d.db", e.nrestored))
-	_, err = snapshot.Restore(rc, tmp)
-	rc.Close()
-	if err != nil {
-		return vcState{}, false
-	}
-	e.lastRestored = tmp
-	return vcReadDBFile(tmp)
-}
-
 func (e *vcEnv) nativeResetDB(st vcState) {
 	vcMust(sql.RemoveFiles(e.dbPath))
-	if e.lastRestored != "" {
-		vcMust(sql.RemoveWALFiles(e.lastRestored))
-		vcMust(os.Rename(e.lastRestored, e.dbPath))
-		e.lastRestored = ""
-		return
-	}
 	vcMakeDBFile(e.dbPath, st)
 }
